@@ -828,7 +828,7 @@ func (s *Sim) findOrMakeRevision(set *asv1.StatefulSet, c *SetCfg, tv int, creat
 }
 
 // mkpod: A=set, B=ordinal, C=attribute bits, D=template version, S=explicit name.
-// bits: owner(2) | phase(3)<<2 | terminating<<5 | nomatch<<6 | revmode(2)<<7 | novolumes<<9 | altversion<<10 | plain extra owner<<11
+// bits: owner(2) | phase(3)<<2 | terminating<<5 | nomatch<<6 | revmode(2)<<7 | novolumes<<9 | altversion<<10 | plain extra owner<<11 | no pod-name label<<12
 func (s *Sim) stepMkPod(st Step) bool {
 	set, c := s.getSet(st.A)
 	if c == nil {
@@ -883,6 +883,11 @@ func (s *Sim) stepMkPod(st Step) bool {
 	p.OwnerReferences = s.ownerRefs(owner|((bits>>10)&1)<<2, set, c)
 	if (bits>>11)&1 == 1 {
 		p.OwnerReferences = append(p.OwnerReferences, plainOwnerRef())
+	}
+	if (bits>>12)&1 == 1 {
+		// somebody's hand-made pod: no pod-name label (the controller repairs the
+		// identity of a pod it claims with an update)
+		delete(p.Labels, lblPodName)
 	}
 	created, err := stCreate(s.Store, KPod, NS, p)
 	if err != nil {
